@@ -35,6 +35,9 @@ static vector<Tpl> templates() {
     // fixed-relative groups: relative offsets of the members stay what they were at construction (x0,y0 = initial centres)
     T.push_back({"FixedRelative {0,1}", [=](vpsc::Rectangles &rs, vector<CompoundConstraint *> &) -> CompoundConstraint * { return new FixedRelativeConstraint(rs, {0, 1}); }, [=](const VD &x, const VD &y, const VD &x0, const VD &y0) { return max(fabs((x[1] - x[0]) - (x0[1] - x0[0])), fabs((y[1] - y[0]) - (y0[1] - y0[0]))); }, 1});
     T.push_back({"FixedRelative {0,1,2}", [=](vpsc::Rectangles &rs, vector<CompoundConstraint *> &) -> CompoundConstraint * { return new FixedRelativeConstraint(rs, {0, 1, 2}); }, [=](const VD &x, const VD &y, const VD &x0, const VD &y0) { double v = 0; for (int i = 1; i < 3; i++) v = max(v, max(fabs((x[i] - x[0]) - (x0[i] - x0[0])), fabs((y[i] - y[0]) - (y0[i] - y0[0])))); return v; }, 2});
+    // fixedPosition = true: the group is additionally pinned where it was at construction
+    T.push_back({"FixedRelative fixedPosition {0,1}", [=](vpsc::Rectangles &rs, vector<CompoundConstraint *> &) -> CompoundConstraint * { return new FixedRelativeConstraint(rs, {0, 1}, true); }, [=](const VD &x, const VD &y, const VD &x0, const VD &y0) { double v = 0; for (int i = 0; i < 2; i++) v = max(v, max(fabs(x[i] - x0[i]), fabs(y[i] - y0[i]))); return v; }, 1});
+    T.push_back({"FixedRelative fixedPosition {1,2}", [=](vpsc::Rectangles &rs, vector<CompoundConstraint *> &) -> CompoundConstraint * { return new FixedRelativeConstraint(rs, {1, 2}, true); }, [=](const VD &x, const VD &y, const VD &x0, const VD &y0) { double v = 0; for (int i = 1; i < 3; i++) v = max(v, max(fabs(x[i] - x0[i]), fabs(y[i] - y0[i]))); return v; }, 2});
     return T;
 }
 static const double GRID[3] = {0, 10, 30};
@@ -165,6 +168,7 @@ int main(int argc, char **argv) {
         for (int mode : {0, 1, 2, 4}) c07_phase(3, mode, false, false, mode < 2 ? 7 : 13, 2, 0, 2);
         c07_phase(3, 0, true, false, 13, 2, 5, 2); c07_phase(3, 0, false, true, 13, 3, 0, 2); c07_phase(3, 1, true, false, 29, 0, 2, 2); c07_phase(2, 0, false, false, 1, 1, 0, 2);
         c07_phase(4, 0, false, false, 97, 2, 0, 1);
+        c07_phase(3, 4, true, false, 13, 2, 0, 2); c07_phase(3, 4, true, false, 13, 3, 5, 2);   // ConstrainedMajorizationLayout with setAvoidOverlaps()
         if (T) { for (int mode : {0, 1, 2, 4}) c07_phase(3, mode, false, false, 1, 2, 0, 2); c07_phase(3, 0, true, false, 3, 3, 5, 2); c07_phase(3, 0, true, true, 5, 0, 7, 2); c07_phase(4, 0, false, false, 53, 2, 0, 2); c07_phase(4, 1, true, false, 53, 3, 9, 2); }
     } else {
         c08_phase(3, 0, 0, false, false, 1); c08_phase(3, 2, 0, false, false, 1); c08_phase(3, 0, 0, true, false, 1); c08_phase(3, 0, 0, false, true, 1);
